@@ -3,6 +3,7 @@
 from __future__ import annotations
 
 import hashlib
+import ast
 import json
 import os
 import time
@@ -82,9 +83,21 @@ class Ctx:
             m = where
             line = getattr(node, "lineno", 0)
         file = self.repo.rel(m) if hasattr(m, "path") else ""
+        canon = None
+        is_node = isinstance(node, ast.AST) and not isinstance(node, (ast.FunctionDef, ast.AsyncFunctionDef))
         if construct is None:
             construct = short(node) if node is not None and not isinstance(node, str) else str(node)
+        # alpha-stable form of the construct when it is the text of the node (locals → $rank): a known finding still
+        # matches after a behaviour-preserving renaming of local variables
+        if isinstance(where, FuncInfo) and is_node and construct == short(node):
+            from .effects import cnorm
+
+            try:
+                canon = short(cnorm(node, where.node))
+            except Exception:
+                canon = None
         f = Finding(self.prop, rule, sym, construct, detail, file, line, path)
+        f.canon = canon
         if not any(x.key == f.key for x in self.findings):
             self.findings.append(f)
         return f
@@ -129,7 +142,7 @@ def match_known(f: Finding, known: list[dict]) -> dict | None:
             k.get("property") == f.prop
             and k.get("rule") == f.rule
             and k.get("symbol") == f.symbol
-            and k.get("construct") == f.construct
+            and (k.get("construct") == f.construct or (getattr(f, "canon", None) and k.get("construct_canon") == f.canon))
         ):
             return k
     return None
